@@ -8,9 +8,21 @@ FUNCTIONS = ['uxarray.remap.nearest_neighbor._nearest_neighbor@rank1',
     'uxarray.remap.utils._remap_grid_parse@spherical,edge centers',
     'uxarray.remap.utils._remap_grid_parse@cartesian,nodes',
     'uxarray.remap.utils._remap_grid_parse@cartesian,face centers',
-    'uxarray.remap.utils._remap_grid_parse@cartesian,edge centers']
+    'uxarray.remap.utils._remap_grid_parse@cartesian,edge centers',
+    "uxarray.remap.nearest_neighbor._nearest_neighbor_uxda@nodes;dims=n_node",
+    "uxarray.remap.nearest_neighbor._nearest_neighbor_uxda@nodes;dims=time,n_face",
+    "uxarray.remap.nearest_neighbor._nearest_neighbor_uxda@edge centers;dims=n_node",
+    "uxarray.remap.nearest_neighbor._nearest_neighbor_uxda@edge centers;dims=time,n_face",
+    "uxarray.remap.nearest_neighbor._nearest_neighbor_uxda@face centers;dims=n_node",
+    "uxarray.remap.nearest_neighbor._nearest_neighbor_uxda@face centers;dims=time,n_face",
+    "uxarray.remap.inverse_distance_weighted._inverse_distance_weighted_remap_uxda@nodes;dims=n_node",
+    "uxarray.remap.inverse_distance_weighted._inverse_distance_weighted_remap_uxda@nodes;dims=time,n_face",
+    "uxarray.remap.inverse_distance_weighted._inverse_distance_weighted_remap_uxda@edge centers;dims=n_node",
+    "uxarray.remap.inverse_distance_weighted._inverse_distance_weighted_remap_uxda@edge centers;dims=time,n_face",
+    "uxarray.remap.inverse_distance_weighted._inverse_distance_weighted_remap_uxda@face centers;dims=n_node",
+    "uxarray.remap.inverse_distance_weighted._inverse_distance_weighted_remap_uxda@face centers;dims=time,n_face"]
 STANDINS = ["remapping", "remap_history"]
 ASSUMPTIONS = []
 EXPLANATION = ""
-LEVEL_TEXT = '_nearest_neighbor proved (rank 1 and 2): every destination value is the value of one in-range source element for the same leading index (no invented values), given the neighbour search as an assumed contract; _remap_grid_parse proved in dataflow form for 2 coordinate systems x 3 destinations: destination points are the requested element kind of the DESTINATION grid, the neighbours come from a tree over the elements of the SOURCE grid of the kind the data live on (count tests in the order python evaluates them), rebuilt for this call (reconstruct=True); the neighbour search itself, identity on own elements and IDW convexity/monotonicity are bounded (brute-force great circle, one-hot fields)'
+LEVEL_TEXT = '_nearest_neighbor proved (rank 1 and 2): every destination value is the value of one in-range source element for the same leading index (no invented values), given the neighbour search as an assumed contract; _remap_grid_parse proved in dataflow form for 2 coordinate systems x 3 destinations: destination points are the requested element kind of the DESTINATION grid, the neighbours come from a tree over the elements of the SOURCE grid of the kind the data live on (count tests in the order python evaluates them), rebuilt for this call (reconstruct=True); the UxDataArray wrappers of both methods proved to hand the grid and data of THIS array to the kernel and to attach the result to the DESTINATION grid with the last dimension renamed to the destination element kind; the neighbour search itself, identity on own elements and IDW convexity/monotonicity are bounded (brute-force great circle, one-hot fields)'
 LEVEL_NOTE = 'sklearn tree query and Grid.get_ball_tree summarised (in-range indices assumed); single destination point excluded (recorded finding); IDW arithmetic not under contract'
